@@ -22,10 +22,11 @@ LEVEL_NOTE = (
 )
 TECHNIQUE = "model-based property testing: generated histories, declarative staleness + needed-set oracle vs. observed operation multisets"
 RULE = (
-    "Hypothesis draws a registry world and a history (runs, faulted runs, source updates, deletions, fresh_time = clock-d "
+    "Hypothesis draws a registry world (as C03: incl. alias sources, sources with extra dependencies, late registration "
+    "order, literal barriers, side-reading calls) and a history (runs, faulted runs, source updates, deletions, fresh_time = clock-d "
     "incl. the boundary fresh_time == a store's time). For every fault-free run: expected = oracle(out-of-date set, needed "
     "set) computed from the spec and the stores' times; observed call/read/write/modified-time multisets must equal it; "
-    "then the same run repeated with no output must perform no call, read or write. Non-trivial = the out-of-date set is "
+    "then the same run repeated with no output must perform no call, read or write (when the model says a source without writer is left out of date by construction, the repeat must instead match the model exactly). Non-trivial = the out-of-date set is "
     "a non-empty proper subset of the registered nodes, or the repeat follows a non-empty rebuild. Distinct = SHA-1 of "
     "(case, index of the run)."
 )
